@@ -488,7 +488,33 @@ def g_collections(ctx, rng, i):
             _same(ctx, c, e, "join(s,p,q) != join(join(s,p),q)", [s, p, q])
 
 
+def g_bigint(ctx, rng, i):
+    """Large integer coordinates (products beyond 2**53 but inside int64) in nearly dependent position: the exact int64 contraction of the
+    library has no rounding, a floating-point detour loses the result."""
+    g = G()
+    base = rng.integers(2 * 10 ** 5, 10 ** 6, size=3) * rng.choice([-1, 1], size=3)
+    d = [rng.integers(-3, 4, size=3) for _ in range(3)]
+    if i % 2 == 0:
+        P3 = [np.append(base + x, 1) for x in d]
+        if X.rank([X.vec(v) for v in P3]) == 3:
+            a = _lib(ctx, g.join, *[g.Point(v) for v in P3], what="join(3 points, large integers)")
+            b = _lib(ctx, g.meet, *[g.Plane(v) for v in P3], what="meet(3 planes, large integers)")
+            if a is not None:
+                a.contains(g.Point(P3[0]))
+                a.contains(g.Point(P3[1] + np.array([0, 0, 1, 0])))
+    else:
+        big = rng.integers(10 ** 5, 10 ** 6, size=2) * rng.choice([-1, 1], size=2)
+        p, q = np.append(big, 1), np.append(big + rng.integers(-3, 4, size=2), 1)
+        if X.rank([X.vec(p), X.vec(q)]) == 2:
+            l = _lib(ctx, g.join, g.Point(p), g.Point(q), what="join(2 points, large integers)")
+            _lib(ctx, g.meet, g.Line(p), g.Line(q), what="meet(2 lines, large integers)")
+            if l is not None:
+                l.contains(g.Point(p))
+                l.contains(g.Point(2 * q - p))
+
+
 GROUPS = [
+    {"name": "bigint", "fn": g_bigint, "quick": 400, "thorough": 4000},
     {"name": "lattice2d", "fn": g_lattice2d, "quick": 124 * 124, "thorough": 124 * 124},
     {"name": "lattice3d", "fn": g_lattice3d, "quick": 80 * 80, "thorough": 80 * 80},
     {"name": "random", "fn": g_random, "quick": 1440, "thorough": 14400},
@@ -496,10 +522,3 @@ GROUPS = [
 ]
 
 
-def _quick_subsample():
-    # quick tier: every 5th lattice pair (the thorough tier enumerates them all)
-    pass
-
-
-GROUPS[0]["quick"] = 124 * 124 // 1
-GROUPS[1]["quick"] = 80 * 80 // 1
